@@ -153,7 +153,16 @@ func worker(w *world, id string) {
 	if len(payload) > 0 {
 		fmt.Fprintf(&resp, "%x\r\n%s\r\n", len(payload), payload)
 	}
-	fmt.Fprintf(&resp, "0\r\nX-Tr: %s\r\n\r\n", t)
+	// odd requests: only an undeclared trailer (no Trailer field announces it); even ones: a declared
+	// and an undeclared one
+	if n%2 == 1 {
+		resp.Reset()
+		fmt.Fprintf(&resp, "HTTP/1.1 %d Status\r\nX-Tok: %s\r\nX-Path: %s\r\nTransfer-Encoding: chunked\r\n\r\n", 200+n, t, req.URL.RequestURI())
+		if len(payload) > 0 {
+			fmt.Fprintf(&resp, "%x\r\n%s\r\n", len(payload), payload)
+		}
+	}
+	fmt.Fprintf(&resp, "0\r\nX-Tr: %s\r\nX-Tu: %s\r\n\r\n", t, t)
 	r2 := httptest.NewRequest("POST", "/agent/response", bytes.NewReader(resp.Bytes()))
 	r2.Header.Set(utils.HeaderBackendID, "b")
 	r2.Header.Set(utils.HeaderRequestID, id)
@@ -204,6 +213,9 @@ func judge(w *world, r *vs.Result, recs []*vh.Rec, K int, sizes []int, cancelFir
 		}
 		if got := rec.Trailers().Get("X-Tr"); got != t {
 			x.Violations = append(x.Violations, fmt.Sprintf("MIXUP: client %d got trailer X-Tr=%q, want %q", i, got, t))
+		}
+		if got := rec.Trailers().Get("X-Tu"); got != t {
+			x.Violations = append(x.Violations, fmt.Sprintf("MIXUP: client %d got the undeclared trailer X-Tu=%q, want %q", i, got, t))
 		}
 	}
 	// C04 (proxy half): every request ID is handed to exactly one list reply.
